@@ -739,3 +739,36 @@ def i4(ctx):
     obs.append(Ob('I4', 'Deque/has-comparisons', len(got) == 6, 'Deque does not define all six rich comparisons',
                   'diskcache/persistent.py:%d' % ci.node.lineno))
     return obs
+
+
+# ---------------------------------------------------------------------- B7
+@rule('B7', floor=2, title='generators never suspend while a statement is half-stepped: rows are fetched before the first yield')
+def b7(ctx):
+    """A generator that yields from inside `for row in <cursor>` leaves the SELECT open while it is suspended: the
+    connection keeps its read snapshot, the client reads stale data and its next write fails with SQLITE_BUSY as
+    soon as anybody else has committed."""
+    obs = []
+    for f in ctx.prog.all_funcs():
+        if f.module != 'core' or not f.is_generator or f.is_contextmanager:
+            continue
+        bad, n = None, 0
+        for p in ctx.paths(f, 'plain'):
+            open_cursor_loops = []
+            for e in p.trace:
+                if e.kind == 'FOR' and e.d.get('it') == 1:
+                    itv = e.d['iter']
+                    lazy = any(x.k == 'cursor' for x in values_in(itv)) and not any(
+                        x.k in ('rows', 'row') for x in values_in(itv))
+                    open_cursor_loops.append((e, lazy))
+                elif e.kind == 'FOREND' and open_cursor_loops:
+                    open_cursor_loops.pop()
+                elif e.kind == 'YIELD':
+                    n += 1
+                    if any(lazy for _, lazy in open_cursor_loops):
+                        bad = e
+        obs.append(Ob('B7', '%s/no-yield-inside-open-cursor' % f.qual.replace('core.', ''), bad is None and n > 0,
+                      '%s yields while iterating a cursor directly: the statement stays half-stepped while the '
+                      'generator is suspended (stale snapshot for this client; its writes fail once another client '
+                      'committed). Fetch the page first (fetchall) and yield from the list' % f.qual,
+                      f.loc(bad.node) if bad is not None else f.loc()))
+    return obs
